@@ -141,6 +141,8 @@ def events_for(st: LState):
         ev += [("ins", 0, "S1"), ("ins", "f", "T3"), ("app", "T1"), ("app", "E2")]
     if n:
         ev += [("del", 0), ("del", "f"), ("del", -1), ("repl", "f", "T1"), ("repl", "f", "E5"), ("repl", 0, "Z0")]
+        # an item changes its own height in place (the list is not told)
+        ev += [("retext", "f", 1), ("retext", "f", 4), ("retext", 0, 4)]
     return ev
 
 
@@ -336,6 +338,23 @@ class Spec:
                         st.walker.delete(pos)
                     else:
                         del st.walker[pos]
+                elif op[0] == "retext":
+                    pos = lb.focus_position if op[1] == "f" else op[1]
+                    w = st.body()[pos]
+                    if isinstance(w, urwid.Edit):
+                        lab = (w.edit_text[:1] or "q")
+                        new = "\n".join(lab + str(k) for k in range(op[2]))
+                        if new == w.edit_text:
+                            return False
+                        w.set_edit_text(new)
+                    elif isinstance(w, urwid.Text) and not isinstance(w, urwid.SelectableIcon):
+                        lab = (w.text[:1] or "q")
+                        new = "\n".join(lab + str(k) for k in range(op[2]))
+                        if new == w.text:
+                            return False
+                        w.set_text(new)
+                    else:
+                        return False
                 elif op[0] == "repl":
                     pos = lb.focus_position if op[1] == "f" else op[1]
                     if st.wkind == "mini":
@@ -385,7 +404,7 @@ def run(tier, R):
         "rule": f"BFS depth {res['depth']} from {len(cfgs)} initial (walker kind, item list, box size) configurations: lists of 0..{2 if quick else 3} items over "
         "{1-row text, 3-row text, selectable icon, 2- and 5-row Edit, zero-row widget, 3-row Columns[Text, Pile]} + 5 longer lists, walkers SimpleFocusListWalker / SimpleListWalker / "
         "a minimal custom walker, sizes 4x{1,2,3,5}; events: 9 keys, press on every row, wheel, set_focus(i, coming_from), set_focus_valign, resize, walker "
-        "insert/append/delete/replace. Every state is rendered and compared with the slice oracle. non-trivial = distinct (rows, focus) renderings that are scrolled or overflow",
+        "insert/append/delete/replace, an item changing its own height in place (set_text / set_edit_text). Every state is rendered and compared with the slice oracle. non-trivial = distinct (rows, focus) renderings that are scrolled or overflow",
         "exhaustive": not res["capped"],
         "bfs_levels": res["levels"],
     }
